@@ -52,6 +52,27 @@ func succ(v int) T3       { return T3{S: success, V: v} }
 func fail(e RErr) T3      { return T3{S: failure, E: e} }
 func sentinel(k int) RErr { return RErr{eSentinel, k} }
 
+// Sentinel table layout: 0..3 failure results of sources 0..3, 4..7 produced inside trees
+// (userErr), 8 the poison error written into tampered inputs, 9.. the failure results of
+// the sources 4..maxWideSrc-1 of wide trees.
+const (
+	poisonErr  = 8
+	maxWideSrc = 72
+	numErrs    = 9 + maxWideSrc - 4
+)
+
+// srcErr is the sentinel index of the failure result of source k.
+func srcErr(k int) int {
+	if k < 4 {
+		return k
+	}
+	return k + 5
+}
+
+// poisonElem is the i-th value written over (or appended to) a caller-owned input of ints
+// after the combinator returned.
+func poisonElem(i int) int { return 900000 + i }
+
 func (e RErr) code() int {
 	switch e.Kind {
 	case eSentinel:
@@ -123,6 +144,18 @@ func (re *refEval) eval(n *Node, env []int) T3 {
 	switch n.Fam {
 	case "src":
 		return re.st[k]
+	case "srcidx":
+		// the source selected by an environment slot (element value): src[env[K] % N]
+		return re.st[env[len(env)-1-k]%n.N]
+	case "ref":
+		// a second use of the future of an earlier node instance (DAG edge)
+		return re.eval(n.ref, env[:len(env)-k])
+	case "expect":
+		// second combinator call of the harness over immediate futures only
+		if n.Mode == 1 {
+			return fail(sentinel(k))
+		}
+		return succ(k)
 	case "Successful":
 		return succ(k)
 	case "Failed":
